@@ -15,11 +15,17 @@ import "math"
 //	Sinh(NaN) = NaN
 func Sinh(d Number) Number {
 	if d.Real == 0 {
+		// sinh(0) = 0, sinh'(0) = 1, sinh''(0) = 0: the dual parts pass through; keep
+		// the documented signed zero when the e1e2 part of d is zero.
+		e1e2 := d.Real
+		if d.E1E2mag != 0 {
+			e1e2 = d.E1E2mag
+		}
 		return Number{
 			Real:    d.Real,
 			E1mag:   d.E1mag,
-			E2mag:   d.E1mag,
-			E1E2mag: d.Real,
+			E2mag:   d.E2mag,
+			E1E2mag: e1e2,
 		}
 	}
 	if math.IsInf(d.Real, 0) {
